@@ -213,7 +213,9 @@ def check(ctx):
     sb = gsa.find(RN, 'store', r'\.shadowed_by$') + gsa.find(RN, 'store', r'\.shadows$')
     r4.check(len(sb) == 2 and gsa.equiv(sb[0].cond, sb[1].cond), 'shadows / shadowed-by stored on the same path', mt.rel, RN.func.lineno, 'rename-to stores: %s' % sb)
     # invoker must be a method of the same type: stored while iterating the parent's own virtual methods
-    P2 = gsa.summarise(ctx, MT, 'MainTransformer._pass_read_annotations2', inline_only=())
+    inv_helpers = [mn for mn, mf in py.methods(MT, 'MainTransformer').items()
+                   if any(isinstance(n, ast.Attribute) and n.attr == 'invoker' and isinstance(n.ctx, ast.Store) for n in ast.walk(mf))]
+    P2 = gsa.summarise(ctx, MT, 'MainTransformer._pass_read_annotations2', inline_only=inv_helpers)
     inv = gsa.find(P2, 'store', r'^\w+\.invoker$', r'^%s\.name$' % re.escape(P2.P(1)))
     r4.check(any(any(l.endswith('.virtual_methods') for l in e.loops) for e in inv), 'invoker recorded on a vfunc of the method\'s own parent', mt.rel, P2.func.lineno,
              'invoker stores: %s' % inv)
